@@ -258,13 +258,17 @@ PLAN = {
     # name -> list of (harness, mode, modules, bound, cap)
     "quick": [("H2", "attr", "core", 99, None), ("H3", "attr", "core", 99, None), ("H4", "attr", "core", 3, None),
               ("H12", "line", "core", 1, None), ("H2", "line", "core", 2, None), ("H3", "line", "core", 2, None), ("H4", "line", "core", 1, None),
-              ("H5", "line", "core", 2, None), ("H6_16", "line", "core", 1, None), ("H6_64", "line", "core", 1, None), ("H6_128", "line", "core", 1, None)],
+              ("H5", "line", "core", 2, None), ("H6_16", "line", "core", 1, None), ("H6_64", "line", "core", 1, None), ("H6_128", "line", "core", 1, None),
+              # always: function-entry points inside the vendored lexer / parser / models / generator (state shared through a CLASS
+              # attribute or a module global leaves no shared instance behind and restores itself, so nothing would trigger the escalation)
+              ("H1t", "call", "deep", 1, None), ("H4t", "call", "deep", 1, None)],
     "thorough": [("H2", "attr", "core", 99, None), ("H3", "attr", "core", 99, None), ("H4", "attr", "core", 99, None),
                  ("H12", "line", "core", 2, None), ("H13", "line", "core", 2, None), ("H2", "line", "core", 3, None), ("H3", "line", "core", 3, None),
                  ("H4", "line", "core", 2, None), ("H5", "line", "core", 3, None), ("H2", "instr", "core", 2, None), ("H3", "instr", "core", 2, None),
                  ("H5", "instr", "core", 2, None), ("H12", "instr", "core", 1, None),
                  ("H6_16", "line", "core", 2, None), ("H6_32", "line", "core", 1, None), ("H6_64", "line", "core", 2, None), ("H6_100", "line", "core", 1, None),
-                 ("H6_128", "line", "core", 2, None), ("H6_256", "line", "core", 1, None), ("H6_512", "line", "core", 1, None), ("H6_1024", "line", "core", 1, None)],
+                 ("H6_128", "line", "core", 2, None), ("H6_256", "line", "core", 1, None), ("H6_512", "line", "core", 1, None), ("H6_1024", "line", "core", 1, None),
+                 ("H1t", "call", "deep", 2, None), ("H4t", "call", "deep", 2, None), ("H12", "call", "deep", 1, None), ("H1t", "line", "deep", 1, None)],
 }  # fmt: skip
 
 
@@ -353,8 +357,8 @@ def plan_units(res, entry):
     return units
 
 
-ESCALATION = {"quick": [("H1t", "call", "deep", 1, None), ("H1t", "line", "deep", 1, None), ("H4t", "line", "deep", 1, None)],
-              "thorough": [("H1t", "call", "deep", 1, None), ("H1t", "line", "deep", 1, None), ("H4t", "line", "deep", 1, None), ("H12", "line", "deep", 1, None), ("H1t", "line", "deep", 2, 40)]}
+ESCALATION = {"quick": [("H1t", "line", "deep", 1, None), ("H4t", "line", "deep", 1, None)],
+              "thorough": [("H4t", "line", "deep", 1, None), ("H12", "line", "deep", 1, None), ("H1t", "line", "deep", 2, 40)]}
 
 
 def run(res, tier):
@@ -366,7 +370,7 @@ def run(res, tier):
         res.merge_worker(w)
         if len(res.violations) >= 12:
             break
-    if not res.violations and (res.cov.get("shared_sly_instances") or ISOLATE[0]):
+    if not res.violations and (res.cov.get("shared_sly_instances") or ISOLATE[0] or os.environ.get("VERIF_C17_ESCALATE")):
         res.set("escalated", True)
         units = []
         for entry in ESCALATION[tier]:
